@@ -133,6 +133,27 @@ pub fn run(r: &mut R) {
                 "(*s).a = 4242;",
                 'r.eq("write through forwarded DerefMut is visible", %s.0.a, 4242);' % st.fld()]
         add("Deref+DerefMut forward", st, sa + sa2, fam, ["Deref", "DerefMut"], body)
+        # ---------------- Deref / DerefMut: the field-level attribute overrides the struct-level one, in both directions
+        if mode in ("implicit", "ignore_others"):
+            for s_arg, f_arg, fwd in (("forward", "not(forward)", False), ("not(forward)", "forward", True)):
+                st = St(n, sel, named, same, "Bx", lambda i: "Bx(inner(%d))" % (10 * (i + 1)))
+                fam = {i: ("#[deref(%s)] #[deref_mut(%s)]" % (f_arg, f_arg)) if i == sel else "#[deref(ignore)] #[deref_mut(ignore)]" for i in range(n)}
+                sa = ["#[deref(%s)]" % s_arg, "#[deref_mut(%s)]" % s_arg]
+                if fwd:
+                    body = ["let mut s: SS = %s;" % st.ctor(),
+                            'r.eq("field-level forward wins over struct-level not(forward)", adr(&*s), adr(<Bx as ::core::ops::Deref>::deref(&%s)));' % st.fld(),
+                            'r.eq("... and the target is what the field derefs to", ::core::any::type_name_of_val(&*s), ::core::any::type_name::<Inner>());',
+                            "let a = adr(&%s.0);" % st.fld(),
+                            'r.eq("... for DerefMut too", adr(&mut *s), a);',
+                            'r.eq("... with the same target", ::core::any::type_name_of_val(&mut *s), ::core::any::type_name::<Inner>());']
+                else:
+                    body = ["let mut s: SS = %s;" % st.ctor(),
+                            'r.eq("field-level not(forward) wins over struct-level forward: the field itself", adr(&*s), adr(&%s));' % st.fld(),
+                            'r.eq("... and its type is the field\'s type", ::core::any::type_name_of_val(&*s), ::core::any::type_name::<Bx>());',
+                            "let a = adr(&%s);" % st.fld(),
+                            'r.eq("... for DerefMut too", adr(&mut *s), a);',
+                            'r.eq("... with the same target", ::core::any::type_name_of_val(&mut *s), ::core::any::type_name::<Bx>());']
+                add("Deref+DerefMut struct-level %s, field-level %s" % (s_arg, f_arg), st, sa, fam, ["Deref", "DerefMut"], body)
         # ---------------- AsRef / AsMut
         for kind in ("direct", "forward", "types_target", "types_own", "types_alias", "types_both"):
             if mode == "ignore_others" and kind != "direct":
